@@ -1378,6 +1378,20 @@ def model_round5(ctx, rng, nprng, quick):
                       "input_class": f"N={N}:{lay}"},
                      "reordering the series does not permute the partial-correlation matrix consistently",
                      {"data": lst(d), "perm": perm, "layout": lay, "observed": lst(g1), "expected": lst(exp)})
+        # affine images a_i x_i + b_i with exact powers of two (theorem partial_correlation_affine_invariant):
+        # off-diagonal entries change by sign(a_i a_j) only
+        sc = np.array([rng.choice([1.0, -1.0]) * 2.0 ** rng.choice([-20, 0, 3, 20]) for _ in range(N)])
+        da = d * sc + sc * np.array([float(rng.randrange(-8, 9)) for _ in range(N)])
+        with quiet():
+            g2 = np.asarray(net.calculate_similarity_measure(mk(da - da.mean(axis=0))), dtype=float)
+        sg = np.sign(np.outer(sc, sc))
+        off = ~np.eye(N, dtype=bool)
+        ctx.count("oracle:partial_correlation_affine_images")
+        if not np.all(np.abs(g2 - sg * g0)[off] <= 1e-7):
+            ctx.fail({"kind": "climate", "class": "PartialCorrelationClimateNetwork", "check": "affine",
+                      "input_class": f"N={N}:{lay}"},
+                     "affine images a_i x_i + b_i change an off-diagonal entry by more than the factor sign(a_i a_j)",
+                     {"data": lst(d), "scales": lst(sc), "layout": lay, "observed": lst(g2), "expected": lst(sg * g0)})
         cor.add(f"pcorr {T} {N} {flat_series_major(d)}", lambda m, c=c: pend.__setitem__(c, m))
 
         def cmp_perm(m, c=c, N=N, perm=perm):
